@@ -266,6 +266,31 @@ class FixedArray
         _length = reduced_len;
     }
 
+    // A strided view of one member of every element of 'other' (the x's of
+    // a V3fArray, the min's of a Box3fArray, ...): 'member' addresses that
+    // member inside the FIRST element of other's storage (other.
+    // unchecked_direct_index(0)) and 'stride' is the distance, counted in
+    // T's, between the members of consecutive elements.  The view shares
+    // other's data and writability and, when other is a masked reference,
+    // its mask, so that element i of the view is the member of other[i].
+    template <class S>
+    FixedArray(T *member, Py_ssize_t stride, FixedArray<S> &other)
+        : _ptr(member), _length(other.len()), _stride(stride),
+          _writable(other.writable()), _handle(other.handle()),
+          _unmaskedLength(other.unmaskedLength())
+    {
+        if (stride <= 0)
+        {
+            throw std::domain_error("Fixed array stride must be positive");
+        }
+        if (other.isMaskedReference())
+        {
+            _indices.reset(new size_t[_length]);
+            for (size_t i = 0; i < _length; ++i)
+                _indices[i] = other.raw_ptr_index(i);
+        }
+    }
+
     template <class S>
     explicit FixedArray(const FixedArray<S> &other)
         : _ptr(0), _length(other.len()), _stride(1), _writable(true),
